@@ -12,6 +12,7 @@ import (
 	"path/filepath"
 	"strconv"
 	"strings"
+	"sync"
 	"testing"
 	"time"
 
@@ -27,7 +28,7 @@ import (
 
 // caseT is what the parent sends to the worker: one relay life, in order.
 type caseT struct {
-	Steps    []string `json:"steps"`    // admin commands, or "!toml <hex>", "!deldest <key> <idx>", "!view", "!plain <hex>", "!pickle <hex>", "!sleep <ms>"
+	Steps    []string `json:"steps"` // admin commands, or "!toml <hex>", "!deldest <key> <idx>", "!view", "!plain <hex>", "!pickle <hex>", "!sleep <ms>"
 	SettleMs int      `json:"settle_ms"`
 }
 
@@ -222,6 +223,33 @@ func TestC14Worker(t *testing.T) {
 			case strings.HasPrefix(st, "!plain "):
 				b, _ := hex.DecodeString(st[7:])
 				err = input.NewPlain(tab).Handle(bytes.NewReader(b))
+			case strings.HasPrefix(st, "!plainN "):
+				// "!plainN <k> <reps> <hex>": k input connections at once, each sending the text reps times, every line with a
+				// name suffix of its own (so that each connection keeps bringing names the relay has not seen yet)
+				f := strings.Fields(st)
+				k, _ := strconv.Atoi(f[1])
+				reps, _ := strconv.Atoi(f[2])
+				b, _ := hex.DecodeString(f[3])
+				var wg sync.WaitGroup
+				for g := 0; g < k; g++ {
+					wg.Add(1)
+					go func(g int) {
+						defer wg.Done()
+						var sb bytes.Buffer
+						for r := 0; r < reps; r++ {
+							for _, l := range bytes.Split(b, []byte("\n")) {
+								if i := bytes.IndexByte(l, ' '); i > 0 {
+									fmt.Fprintf(&sb, "%s.g%dr%d%s\n", l[:i], g, r, l[i:])
+								} else {
+									sb.Write(l)
+									sb.WriteByte('\n')
+								}
+							}
+						}
+						input.NewPlain(tab).Handle(bytes.NewReader(sb.Bytes()))
+					}(g)
+				}
+				wg.Wait()
 			case strings.HasPrefix(st, "!pickle "):
 				b, _ := hex.DecodeString(st[8:])
 				err = input.NewPickle(tab).Handle(bytes.NewReader(b))
